@@ -673,7 +673,8 @@ func (g Gateway) GetByIndexStream(in *hydrapb.GetByIndexStreamRequest, stream hy
 	var treasures []treasure.Treasure
 	var residualFilters *hydrapb.FilterGroup
 
-	if plan.Mode != PlanModeBypass && bucketExecPreconditions(beaconType) {
+	// From/Limit are positions in the whole index: only the index walk knows them
+	if plan.Mode != PlanModeBypass && bucketExecPreconditions(beaconType) && in.GetFrom() == 0 && in.GetLimit() == 0 {
 		// Bucket-routed: pull candidates from the auto-built index,
 		// then apply time-range, sort, paging, residual predicate.
 		candidates := collectBucketCandidates(swampInterface, plan.Hints)
@@ -812,7 +813,7 @@ func (g Gateway) GetByIndexStreamFromMany(in *hydrapb.GetByIndexStreamFromManyRe
 			var treasures []treasure.Treasure
 			var residualFilters *hydrapb.FilterGroup
 
-			if plan.Mode != PlanModeBypass && bucketExecPreconditions(beaconType) {
+			if plan.Mode != PlanModeBypass && bucketExecPreconditions(beaconType) && query.GetFrom() == 0 && query.GetLimit() == 0 {
 				candidates := collectBucketCandidates(swampInterface, plan.Hints)
 				candidates = applyTimeRange(candidates, beaconType, fromTime, toTime)
 				sortCandidates(candidates, beaconType, order)
